@@ -1036,9 +1036,11 @@ func (val Value) HasIndex(key Value) Value {
 //
 // This method will panic if the receiver is not a set, or if it is a null set.
 func (val Value) HasElement(elem Value) Value {
-	if val.IsMarked() || elem.IsMarked() {
+	if val.IsMarked() || elem.ContainsMarked() {
+		// Set members never carry marks, so the candidate element must be
+		// compared (and hashed) without any of its marks, nested ones included.
 		val, valMarks := val.Unmark()
-		elem, elemMarks := elem.Unmark()
+		elem, elemMarks := elem.UnmarkDeep()
 		return val.HasElement(elem).WithMarks(valMarks, elemMarks)
 	}
 
